@@ -490,6 +490,39 @@ def linear_extensions_one(H):
 # ---------------------------------------------------------------------------
 # (f) constructor arguments the caller keeps and changes afterwards
 
+def _mutable_probe(inst, side, which):
+    """'refused' | [message as defined, key as defined, key after restore as defined]"""
+    L = T.lib()
+    R, rp = inst.ref, inst.rp
+    pw0, x = b"correct horse", 5 % inst.q
+    ids0 = C.ids_for(side, 1)
+    w = R.pw_scalar(pw0)
+    pw = bytearray(pw0) if which == "pw" else (memoryview(bytearray(pw0)) if which == "view" else pw0)
+    ids = tuple(bytearray(i) for i in ids0) if which == "ids" else ids0
+    try:
+        if side == "S":
+            s = L.S(pw, idSymmetric=ids[0], params=inst.params, entropy_f=inst.entropy(x))
+        else:
+            s = L.cls[side](pw, idA=ids[0], idB=ids[1], params=inst.params, entropy_f=inst.entropy(x))
+    except Exception:
+        return "refused"
+    # the caller wipes / reuses its buffers
+    if which == "pw":
+        pw[:] = b"X" * len(pw)
+    elif which == "view":
+        pw.obj[:] = b"X" * len(pw0)
+    else:
+        for i in ids:
+            i[:] = b"Z" * len(i)
+    m = T.observe(s.start)
+    inbound = C.inbound_menu(inst, side, w, x)[0][1]
+    blob = T.observe(s.serialize)
+    k = T.observe(s.finish, inbound)
+    k2 = T.observe(lambda: inst.restore(side, blob[1]).finish(inbound)) if blob[0] == "ok" else ("exc", "-")
+    exp = RS.finish(rp, side, pw0, w, ids0, x, inbound)
+    return [m == ("ok", RS.message(rp, side, w, x)), exp[0] == "key" and k == ("ok", exp[1]), exp[0] == "key" and k2 == ("ok", exp[1])]
+
+
 def _mutable_args_task(task):
     """password / identities handed over as bytearray (or memoryview) and OVERWRITTEN by the caller right after construction: either
     the constructor refuses them, or the session is the one its arguments described when it was constructed"""
@@ -505,38 +538,18 @@ def _mutable_args_task(task):
     w = R.pw_scalar(pw0)
     fam = inst.kind if inst.small else inst.name
     for which in ("pw", "ids", "view"):
-        pw = bytearray(pw0) if which == "pw" else (memoryview(bytearray(pw0)) if which == "view" else pw0)
-        ids = tuple(bytearray(i) for i in ids0) if which == "ids" else ids0
-        try:
-            if side == "S":
-                s = L.S(pw, idSymmetric=ids[0], params=inst.params, entropy_f=inst.entropy(x))
-            else:
-                s = L.cls[side](pw, idA=ids[0], idB=ids[1], params=inst.params, entropy_f=inst.entropy(x))
-        except Exception:
-            acc.seen((name, side, which, "refused"))
-            acc.n(states=1, transitions=1)
-            continue
-        # the caller wipes / reuses its buffers
-        if which == "pw":
-            pw[:] = b"X" * len(pw)
-        elif which == "view":
-            pw.obj[:] = b"X" * len(pw0)
-        else:
-            for i in ids:
-                i[:] = b"Z" * len(i)
-        m = T.observe(s.start)
-        inbound = C.inbound_menu(inst, side, w, x)[0][1]
-        blob = T.observe(s.serialize)
-        k = T.observe(s.finish, inbound)
-        k2 = T.observe(lambda: inst.restore(side, blob[1]).finish(inbound)) if blob[0] == "ok" else ("exc", "-")
-        exp = RS.finish(rp, side, pw0, w, ids0, x, inbound)
+        got = _mutable_probe(inst, side, which)
         acc.n(states=1, transitions=4)
-        ok = m == ("ok", RS.message(rp, side, w, x)) and exp[0] == "key" and k == ("ok", exp[1]) and k2 == ("ok", exp[1])
+        if got == "refused":
+            acc.seen((name, side, which, "refused"))
+            continue
+        ok = all(got)
         acc.seen((name, side, which, "accepted", ok))
         if not ok:
             acc.violation("C16/%s/%s/mutable-argument-aliasing" % (fam, side),
                           {"what": "a session constructed with a mutable %s argument changes when the caller overwrites that buffer afterwards (message/key/state no longer those of the constructor arguments)" % which,
-                           "replay": {"fn": "mutable", "name": name, "side": side, "which": which}, "expected": "refused at construction, or unaffected", "observed": [m[0], k[0], k2[0]]})
+                           "replay": {"fn": "mutable", "name": name, "side": side, "which": which},
+                           "expected": "refused at construction, or [message, key, restored key] all as defined by the constructor arguments", "observed": got})
     acc.n(traces=1)
     return acc
 
@@ -809,8 +822,7 @@ def replay(rec):
                 return o
         return o
     if r["fn"] == "mutable":
-        a = _mutable_args_task((r["name"], r["side"]))
-        return sorted(a.viol)
+        return _mutable_probe(T.get(r["name"]), r["side"], r.get("which", "ids"))
     if r["fn"] in ("soak", "default"):
         return "re-run the check (long history)"
     if r["fn"] == "isolated":
